@@ -69,6 +69,14 @@ class C02(C01):
             progs.append(dict(ops=[("file", b"n" * L, Opts()), ("write", b"x"), ("finish",)])); metas.append(dict(k="len", what="name", L=L))
             progs.append(dict(ops=[("file", b"ok", Opts()), ("comment", b"c" * L), ("finish",)])); metas.append(dict(k="len", what="comment", L=L))
             progs.append(dict(ops=[("dir", b"d" * L, Opts()), ("finish",)])); metas.append(dict(k="len", what="name", L=L + 1))
+        # the limit is on BYTES: non-ASCII names with few characters but too many bytes, through every creating call
+        for nm in ("\u00e9" * 32768, "a" + "\u00e9" * 32768, "\u20ac" * 21846, "\u00e9" * 40000, "\u00e9" * 32767 + "a", "\u20ac" * 21845):
+            nb = nm.encode("utf-8")
+            progs.append(dict(ops=[("file", nb, Opts()), ("write", b"x"), ("finish",)])); metas.append(dict(k="len", what="name", L=len(nb)))
+            progs.append(dict(ops=[("dir", nb, Opts()), ("finish",)])); metas.append(dict(k="len", what="name", L=len(nb) + 1))
+            progs.append(dict(ops=[("symlink", nb, b"t", Opts()), ("finish",)])); metas.append(dict(k="len", what="name", L=len(nb)))
+            progs.append(dict(ops=[("extra", nb, Opts()), ("endextra",), ("write", b"x"), ("finish",)])); metas.append(dict(k="len", what="name", L=len(nb)))
+            progs.append(dict(ops=[("aligned", nb, Opts(), 64), ("write", b"x"), ("finish",)])); metas.append(dict(k="len", what="name", L=len(nb)))
         import struct
         for L in (65531, 65511, 65512, 65515, 65516, 65520):
             for large in (False, True):
